@@ -27,12 +27,15 @@ MANIFEST = dict(
          "pressure_at / spreading_pressure_at leave the observable content unchanged, also over arbitrary query histories (induction); the cache "
          "invariant 'a cached interpolator equals a fresh build from the current data' holds after ANY history of queries and permanent "
          "conversions with any arguments (proved over the generated convert_* code, so a dropped cache reset breaks the proof); hence the values "
-         "or error kind of every interpolation query after any history equal those on an identical fresh object. The history dependence of "
-         "spreading_pressure_at's range guard is a refuted statement with a computed witness (known finding). Characterisation, fitting, IAST, "
-         "exports and the CoolProp state are covered by the run-time purity / repeatability oracle only (partial).",
+         "or error kind of every interpolation query after any history equal those on an identical fresh object. The outcome of "
+         "spreading_pressure_at is history independent (after a fix: commit; formerly refuted with a witness). A census of the source, regenerated "
+         "on every run, proves that no analysis calls a mutating method on, assigns into, or applies an in-place container method to an isotherm "
+         "handed in. Characterisation, fitting, IAST, exports and the CoolProp state are covered by the run-time oracle (partial): 56 calls = "
+         "analysis x kind of argument (point / model isotherms, lists in mixed units) x optional arguments in random histories, each outcome "
+         "compared with the same call in a FRESH PROCESS, raw state compared before / after, identifier reads included.",
     note="Trusted: Coq kernel; hand model Iso/IsoAccess.v (validated by correspondence); translators py2v_iso / py2v_units; interp1d contract; the "
          "opaque analyses (characterisation, model_iso, iast, to_json/csv/aif, Adsorbate backend state) are exercised, not modelled.",
-    technique="Coq proof (invariant + induction over query/conversion histories) on accessor model over generated code; differential run vs fresh twin")
+    technique="Coq proof (invariant + induction over query/conversion histories) on accessor model over generated code; generated purity census; differential run vs fresh twin and fresh process")
 
 HEADER = c03.HEADER
 PREPS, LREPS, MREPS = c01.PREPS, c01.LREPS, c01.MREPS
